@@ -1,6 +1,7 @@
 (* C03 — Each reported path is the Normalized Path of the reported node.  Statements only. *)
 From Coq Require Import List NArith ZArith Bool.
-From JP Require Import Base Ast Eval ValueModel Spec NormPath Known WellFormed Regex Entry PathFacts.
+From JP Require Import Base Ast Eval ValueModel Spec NormPath Known WellFormed Regex Entry PathFacts
+  NormPathFacts Reference Requery.
 Import ListNotations.
 
 (* the full statement (false of the code today: D6) *)
@@ -17,6 +18,41 @@ Theorem C03_path_is_np_partial : forall q d ps,
 Proof. exact (fun q d => paths_are_normalized rx_model_search d q). Qed.
 Print Assumptions C03_path_is_np_partial.
 
+(* the Normalized Path syntax is uniquely decodable, for every name (any characters, escaped as
+   2.7 prescribes) and every index: two locations have the same Normalized Path only if they are
+   the same location *)
+Theorem C03_np_injective : forall l1 l2, np l1 = np l2 -> l1 = l2.
+Proof. exact np_injective. Qed.
+Print Assumptions C03_np_injective.
+
+(* two reported results have the same path exactly when they are the same node (location) *)
+Theorem C03_same_path_same_node_partial : forall q d ps p1 p2,
+  segs_path_ok q = true -> doc_plain d = true -> m_query q d = Some ps ->
+  In p1 ps -> In p2 ps -> (path p1 = path p2 <-> ploc p1 = ploc p2).
+Proof. exact same_path_same_location. Qed.
+Print Assumptions C03_same_path_same_node_partial.
+
+(* re-running a reported path returns exactly that node: the query whose text is the reported
+   path ([np_query l] is the AST of the string [np l]) selects the reported node and nothing else,
+   and reports the same path again *)
+Theorem C03_requery_partial : forall q d ps p,
+  wf_query q = true -> segs_path_ok q = true -> doc_plain d = true -> wf_json d = true ->
+  m_query q d = Some ps -> In p ps ->
+  m_query (np_query (ploc p)) d = Some [p].
+Proof. exact requery_reported. Qed.
+Print Assumptions C03_requery_partial.
+
+(* the Normalized Path of any existing node selects that node; of a missing location, nothing *)
+Theorem C03_np_selects_node : forall d l v,
+  doc_plain d = true -> lookup d l = Some v ->
+  m_query (np_query l) d = Some [ {| inner := v; path := np l; ploc := l |} ].
+Proof. exact requery_np. Qed.
+Print Assumptions C03_np_selects_node.
+Theorem C03_np_missing : forall d l,
+  loc_plain l = true -> lookup d l = None -> m_query (np_query l) d = Some [].
+Proof. exact requery_absent. Qed.
+Print Assumptions C03_np_missing.
+
 (* witness of the known finding D6: $["a"] reports $['"a"'] *)
 Example D6_refuted :
   option_map (map (fun p => (path p, np (ploc p))))
@@ -31,3 +67,11 @@ Example C03_example :
   = Some [([36; 91; 39; 97; 39; 93; 91; 49; 93]%N, [36; 91; 39; 97; 39; 93; 91; 49; 93]%N);
           ([36; 91; 39; 97; 39; 93; 91; 49; 93; 91; 48; 93]%N, [36; 91; 39; 97; 39; 93; 91; 49; 93; 91; 48; 93]%N)].
 Proof. vm_compute. reflexivity. Qed.
+
+(* non-vacuity of the re-query theorem, and np on a name that needs every kind of escape *)
+Example C03_requery_example :
+  let d := JObj [([97]%N, JArr [JNum (NInt 1); JArr [JNum (NInt 2)]])] in
+  m_query (np_query [SName [97]%N; SIdx 1; SIdx 0]) d
+  = Some [ {| inner := JNum (NInt 2); path := np [SName [97]%N; SIdx 1; SIdx 0]; ploc := [SName [97]%N; SIdx 1; SIdx 0] |} ]
+  /\ np_decode (np [SName [39; 92; 10; 1; 233]%N; SIdx 10]) = Some [SName [39; 92; 10; 1; 233]%N; SIdx 10].
+Proof. vm_compute. split; reflexivity. Qed.
